@@ -49,8 +49,8 @@ ASSUMPTIONS = [
 ]
 
 SWEEP_WIDTHS = [63, 64, 65, 127, 128, 129]
-MAX_COQ_NETS = 700
-MAX_SYNTH_COST = 9000
+MAX_COQ_NETS = 260
+MAX_SYNTH_COST = 1300
 WORKERS = 12
 
 
@@ -160,13 +160,17 @@ def sweep_design(rng, W, k):
     return d
 
 
-def random_design(rng):
-    d = gen_designs.make_design(rng, wide_prob=0.55, probe_all=True, n_ops=rng.randint(6, 20))
+def random_design(rng, small):
+    if small:   # cheap enough to synthesize: the synthesized variants come from these
+        d = gen_designs.make_design(rng, wide_prob=0.04, probe_all=True, n_ops=rng.randint(4, 9),
+                                    max_width=rng.choice([8, 8, 65]))
+    else:
+        d = gen_designs.make_design(rng, wide_prob=0.55, probe_all=True, n_ops=rng.randint(6, 20))
     block = d.block
     pool = [w for w in block.wirevector_set
             if not isinstance(w, (pyrtl.Output, pyrtl.Const))]
     pool.sort(key=lambda w: w.name)
-    add_raw_nets(rng, block, pool, rng.randint(2, 6), 'z')
+    add_raw_nets(rng, block, pool, rng.randint(1, 3) if small else rng.randint(2, 6), 'z')
     return d
 
 
@@ -304,11 +308,33 @@ def straddles(net):
     return False
 
 
+def natural_width(net):
+    if net.op in 'w~&|^nrx':
+        return len(net.args[-1])
+    if net.op in '+-':
+        return len(net.args[0]) + 1
+    if net.op == '*':
+        return 2 * len(net.args[0])
+    if net.op == 'c':
+        return sum(len(a) for a in net.args)
+    if net.op == 's':
+        return len(net.op_param)
+    return len(net.dests[0]) if net.dests else 0
+
+
+def truncating(net):
+    return bool(net.dests) and len(net.dests[0]) < natural_width(net)
+
+
 def net_signature(simname, net):
     if net is None:
         return '%s:?' % simname
     if net.op == 'c' and simname == 'compiled' and straddles(net):
         return 'compiled:concat-limb-straddle'
+    if simname == 'fast' and net.op in 'xcs' and truncating(net):
+        return 'fast:%s-truncating-dest' % net.op      # `mask & <unparenthesised expr>`
+    if simname == 'compiled' and net.op == 'r' and truncating(net):
+        return 'compiled:r-truncating-dest'            # register copy without mask
     wide = any(len(w) > 64 for w in net.args + net.dests)
     return '%s:%s%s' % (simname, net.op, ':limb' if wide else '')
 
@@ -342,9 +368,15 @@ def first_bad_net(block, order, ref, got, ncyc):
                 # walk back through plain wire nets to the op that computed the value
                 src = n
                 while src.op == 'w':
-                    prev = [p for p in order if p.dests and p.dests[0] is src.args[0]
-                            and not isinstance(p.dests[0], pyrtl.Register)]
-                    if not prev or len(src.dests[0]) < len(src.args[0]):
+                    if len(src.dests[0]) < len(src.args[0]):
+                        break
+                    prev = [p for p in order if p.dests and p.dests[0] is src.args[0]]
+                    if not prev:
+                        break
+                    if prev[0].op == 'r':
+                        # a register is only as good as the value latched: blame a truncating `r` net
+                        if truncating(prev[0]):
+                            src = prev[0]
                         break
                     src = prev[0]
                 return t, n, src, ref[dn][t], got[o][t]
@@ -447,7 +479,7 @@ def run(ctx):
         designs.append(('sweep', i, sweep_design(rng, SWEEP_WIDTHS[i % 6], i // 6)))
     for i in range(n_random):
         rng = ctx.sub_rng('random', i)
-        designs.append(('random', i, random_design(rng)))
+        designs.append(('random', i, random_design(rng, i % 2 == 1)))
 
     # phase 1: variants, stimulus, Python simulators (main thread: PyRTL's working block is global)
     cases = []
@@ -668,18 +700,27 @@ def compare_case(ctx, case):
     # ---- tie: Fast model
     fm = case['fastmodel']
     if fm is not None:
-        if fm[0] != [1, 1]:
-            ctx.model_mismatch('wfb / fast_wfb false on a sanity-checked block: %s' % fm[0], replay_dict(ctx, case))
+        trunc_xcs = [n for n in order if n.op in 'xcs' and truncating(n)]
+        if fm[0][0] != 1 or (fm[0][1] != 1 and not trunc_xcs) or (fm[0][1] == 1 and trunc_xcs):
+            ctx.model_mismatch('wfb / fast_wfb = %s on a sanity-checked block with %d truncating x/c/s nets'
+                               % (fm[0], len(trunc_xcs)), replay_dict(ctx, case))
+        ctx.count('fast_wfb', 'true (C02_fast_refines_spec applies)' if fm[0][1] == 1
+                  else 'false (block has a truncating mux/concat/select net)')
         model_flags = fm[1]
         model_mem = fm[2]
         model_trace = {nm: [fm[3 + t][k] for t in range(ncyc)] for k, nm in enumerate(dnames)}
-        if model_trace != {nm: ref_trace[nm] for nm in dnames} or model_mem != [ref_mem[mid][a] for (mid, a) in probes]:
-            ctx.model_mismatch('pyrtl.Simulation and Sim/FastModel.v disagree (%s %d %s)' % (
-                case['family'], case['design'], case['variant']), replay_dict(ctx, case))
+        sim_mem_flat = [ref_mem[mid][a] for (mid, a) in probes]
         if not isinstance(fast, str):
-            if model_trace != {nm: fast[0][nm] for nm in dnames if nm in fast[0]}:
+            # the tie proper: the model is a model of FastSimulation (including its defects)
+            if model_trace != {nm: fast[0][nm] for nm in dnames if nm in fast[0]} or \
+                    model_mem != [fast[1][mid][a] for (mid, a) in probes]:
                 ctx.model_mismatch('pyrtl.FastSimulation and Sim/FastModel.v disagree (%s %d %s)' % (
                     case['family'], case['design'], case['variant']), replay_dict(ctx, case))
+        if fm[0][1] == 1 and (model_trace != {nm: ref_trace[nm] for nm in dnames} or model_mem != sim_mem_flat):
+            # where the refinement theorem applies, the model must also equal Simulation
+            ctx.model_mismatch('pyrtl.Simulation and Sim/FastModel.v disagree although fast_wfb holds (%s %d %s)' % (
+                case['family'], case['design'], case['variant']), replay_dict(ctx, case))
+        if not isinstance(fast, str):
             src_flags = fast_elision_from_source(case)
             for n, a, b in zip(order, src_flags, model_flags):
                 ctx.count('fast_mask', '%s:%s' % (n.op, {0: 'masked', 1: 'elided', 2: 'n/a'}.get(a, 'unparsed')))
